@@ -237,17 +237,18 @@ def part_rejects(rec):
 _vf = [0]
 
 
-def version_file_values(rec, content):
+def version_file_values(rec, content, force_refusal=False):
     import ncs.build as nb
     import random
     _vf[0] += 1
-    if random.Random(f"refused-first/{rec.seed}/{rec.shard}/{_vf[0]}").random() < 0.12:
+    after_refusal = force_refusal or random.Random(f"refused-first/{rec.seed}/{rec.shard}/{_vf[0]}").random() < 0.12
+    if after_refusal:
         # history: the read just before this one was REFUSED half-way (a VERSION file of a work-in-progress tree with every
         # optional key and a field that is not a number); nothing of it may show in the next result
         q = drive.fresh(rec.tmpdir(), ".VERSION")
         with open(q, "w", newline="") as fh:
             fh.write("VERSION_MAJOR = 7\nVERSION_MINOR = 7\nPATCHLEVEL = 3-dev\nVERSION_TWEAK = 100\nEXTRAVERSION = rc.1\n"
-                     "APP_ROOT_SEQ_NUM = 777\nAPP_ROOT_VERSION = 7.7.7-rc.7\nSCFW_VERSION_MAJOR = 7\nSCFW_VERSION_MINOR = 7\n"
+                     "APP_ROOT_VERSION = 7.7.7-rc.7\nSCFW_VERSION_MAJOR = 7\nSCFW_VERSION_MINOR = 7\n"
                      "SCFW_PATCHLEVEL = 7\nSCFW_VERSION_TWEAK = 77\nSCFW_EXTRAVERSION = beta\n")
         try:
             nb.read_version_file(q)
@@ -262,7 +263,18 @@ def version_file_values(rec, content):
     with open(p, "w", newline="") as fh:
         fh.write(content)
     try:
-        return dict(nb.read_version_file(p))
+        vals = dict(nb.read_version_file(p))
+        if after_refusal:
+            again = dict(nb.read_version_file(p))
+            diff = sorted(k for k in set(vals) | set(again) if vals.get(k) != again.get(k))
+            if diff:
+                # the same release read twice: equal versions must get equal sequence numbers / version strings
+                rec.violation("default-seq-num-not-monotone",
+                              f"the same VERSION file gives {[(k, vals.get(k)) for k in diff][:4]} right after a refused "
+                              f"file and {[(k, again.get(k)) for k in diff][:4]} when read again: equal releases are "
+                              "given different sequence numbers / versions", {"kind": "version-file", "content": content,
+                                                                              "after_refusal": True})
+        return vals
     finally:
         os.unlink(p)
 
@@ -411,7 +423,7 @@ def replay(rec, case):
         if (ta < tb and not sa < sb) or (ta == tb and sa != sb):
             rec.violation("default-seq-num-not-monotone", f"{ta} -> {sa} but {tb} -> {sb}", case)
     elif k == "version-file":
-        vals = version_file_values(rec, case["content"])
+        vals = version_file_values(rec, case["content"], force_refusal=bool(case.get("after_refusal")))
         try:
             convert(vals.get("DEFAULT_VERSION"))
         except Exception as e:  # noqa
